@@ -583,6 +583,11 @@ func (s *lockSeqGen) value() string {
 		return lockHex(append([]byte{0, byte(s.n), 0, 0}, s.r.Bytes(s.r.Intn(4))...))
 	case s.n%7 == 0:
 		return lockHex(append(append([]byte{byte(s.n >> 8), byte(s.n)}, s.r.Bytes(300+s.r.Intn(700))...), 0))
+	case s.n%11 == 0:
+		// sizes around the powers of two a buffer or a read limit would have (a checkpoint with a long origin and several
+		// cosignature lines is a few KiB)
+		sz := []int{1021, 1022, 1023, 4093, 4094, 4095, 8189, 16381, 65533, 70000}[s.r.Intn(10)] + s.r.Intn(4)
+		return lockHex(append([]byte{0xD0 | byte(s.n>>8&0xF), byte(s.n)}, s.r.Bytes(sz)...))
 	default:
 		return lockHex(append([]byte{0xC0 | byte(s.n>>8), byte(s.n)}, s.r.Bytes(1+s.r.Intn(12))...))
 	}
